@@ -340,6 +340,7 @@ class Executor(ExprMixin, StmtMixin, LoopMixin):
         ft = cs.fields[name]
         arr = self.field_array(st, cs.name, name)
         st.heap[(cs.name, name)] = z3.Store(arr, lift(recv), lift(v, ft))
+        st.ghost[("wline", (cs.name, name))] = getattr(node, "lineno", None) or st.ghost.get(("wline", (cs.name, name)))
 
     # Allocation is modelled by birth stamps: every reference has a birth time (uninterpreted `birth`), the
     # state carries the current time `now`; allocated(r) == birth(r) < now.  Creating an object takes a fresh
@@ -784,9 +785,11 @@ class Executor(ExprMixin, StmtMixin, LoopMixin):
                     arr = self.field_array(st, ocls, fn)
                     ft = api.CLASSES[ocls].fields[fn]
                     st.heap[(ocls, fn)] = z3.Store(arr, lift(bound[cn]), fresh(ft, f"{fn}_post"))
+                    st.ghost[("wline", (ocls, fn))] = getattr(node, "lineno", None)
                     continue
                 arr = self.field_array(st, cn, fn)
                 st.heap[(cn, fn)] = z3.Const(fresh_name(f"H_{cn}_{fn}"), arr.sort())
+                st.ghost[("wline", (cn, fn))] = getattr(node, "lineno", None)
             else:
                 v = bound[m]
                 nv = Val(v.ty, fresh(v.ty, m + "_post"))
